@@ -471,7 +471,11 @@ def decide(case, ctx, c, first):
             vb = sim.var_bits(npos[n], len(order))
             abits &= vb if v else (vb ^ full)
         Aarg = {n: (int(v) if case.get("val_int") else bool(v)) for n, v in A.items()}
-        ok, res = ctx.call(cg.sat.solve, c, dict(Aarg))
+        a_passed = dict(Aarg)
+        ok, res = ctx.call(cg.sat.solve, c, a_passed)
+        if a_passed != Aarg:
+            ctx.violation("solve_modified_assumptions", f"solve({A}) changed the caller's assumptions dict to {a_passed}")
+            continue
         ctx.count("cmp:solve")
         if not ok:
             ctx.violation("solve_raised", f"solve({A}) raised {res!r}\n{getattr(res, '_tb', '')}")
